@@ -147,7 +147,9 @@ func (h H) matchIndexOnlyOnSuccess(rule string) {
 				return a.Op == "==" && a.R == succ && strings.HasSuffix(a.L, ".resp.result")
 			})
 			h.C.Check(rule+" success-only", name+" store matchIndex", r.OK, h.pos(s.Instr), "matchIndex raised without a success reply to the snapshot: "+r.Witness)
-			h.C.Check(rule+" value", name+" store matchIndex", strings.HasSuffix(val, ".lastIndex"), h.pos(s.Instr), "matchIndex must become the snapshot's last index; found "+val)
+			// the request's lastIndex, or the opened snapshot's meta.index it was filled from
+			okVal := strings.HasSuffix(val, ".lastIndex") || strings.HasPrefix(val, "(*snapshots).open(") && strings.HasSuffix(val, ".meta.index")
+			h.C.Check(rule+" value", name+" store matchIndex", okVal, h.pos(s.Instr), "matchIndex must become the snapshot's last index; found "+val)
 		case "(*leader).addReplication":
 			h.C.Check(rule+" initial", name+" store matchIndex", val == "0", h.pos(s.Instr), "a new replication must start with matchIndex 0; found "+val)
 		}
